@@ -220,9 +220,72 @@ def gen_cases(ctx):
             t = {"_anchors": a, "packages": {"example.com/x/q": {"config": {"_anchors": b, "all": True},
                                                                  "interfaces": {"I": {"config": {"_anchors": a}, "configs": [{"_anchors": b}]}}}}}
             cases.append({"i": len(cases), "tree": t})
+    # the same trees written with anchored scalars and aliases in value and list-item positions (flow-style YAML)
+    extra = []
+    for c in list(cases):
+        if "tree" in c and ctx.rng.random() < 0.35:
+            y = aliasify(c["tree"], ctx.rng)
+            if y is not None:
+                extra.append({"i": len(cases) + len(extra), "yaml": y, "aliased": True})
+    cases += extra
     for c in cases:
         c["stale_outfile"] = ctx.rng.random() < 0.3
+        if ctx.rng.random() < 0.25:
+            c["search"] = ctx.rng.choice(["cwd", "sub"])
+            c["v2name"] = ctx.rng.choice([".mockery.yml", ".mockery.yaml"])
+            c["twice"] = ctx.rng.random() < 0.6
     return cases
+
+
+def aliasify(tree, rng):
+    """JSON is flow-style YAML: emit the tree as JSON with up to 4 string scalars (list items and map values) replaced by aliases of
+    anchors defined under the top-level _anchors key. Returns None when the tree has no suitable scalar."""
+    if not isinstance(tree, dict) or ("_anchors" in tree and not isinstance(tree["_anchors"], dict)):
+        return None
+    cands = []
+
+    def walk(node, path):
+        if isinstance(node, dict):
+            for k, v in node.items():
+                if k != "_anchors":
+                    walk(v, path + (k,))
+        elif isinstance(node, list):
+            for k, v in enumerate(node):
+                walk(v, path + (k,))
+        elif isinstance(node, str) and path:
+            cands.append(path)
+    walk(tree, ())
+    if not cands:
+        return None
+    chosen = {}
+    for pth in rng.sample(cands, min(len(cands), rng.randint(1, 4))):
+        chosen[pth] = "al%d_dir" % len(chosen)
+
+    def get(pth):
+        n = tree
+        for k in pth:
+            n = n[k]
+        return n
+
+    def emit(node, path):
+        if path in chosen:
+            return "*" + chosen[path]
+        if isinstance(node, dict):
+            items = []
+            if not path:
+                anchors = dict(node.get("_anchors") or {})
+                a = ", ".join(["%s: &%s %s" % (json.dumps(nm), nm, json.dumps(get(pth), ensure_ascii=False)) for pth, nm in chosen.items()] +
+                              ["%s: %s" % (json.dumps(k, ensure_ascii=False), emit(v, ("_anchors", k))) for k, v in anchors.items()])
+                items.append('"_anchors": {%s}' % a)
+            for k, v in node.items():
+                if not path and k == "_anchors":
+                    continue
+                items.append("%s: %s" % (json.dumps(k, ensure_ascii=False), emit(v, path + (k,))))
+            return "{" + ", ".join(items) + "}"
+        if isinstance(node, list):
+            return "[" + ", ".join(emit(v, path + (k,)) for k, v in enumerate(node)) + "]"
+        return json.dumps(node, ensure_ascii=False)
+    return emit(tree, ()) + "\n"
 
 
 def is_empty(v):
@@ -310,7 +373,8 @@ def eval_case(ctx, case):
     files = {"p1/a.go": "package p1\n\ntype A interface{ M() }\n", "p2/b.go": "package p2\n\ntype B interface{ M() }\n",
              "p1/sub/c.go": "package sub\n\ntype C interface{ M() }\n"}
     root = core.scratch_module(ctx, files)
-    v2path = os.path.join(root, "v2.yml")
+    search = case.get("search")   # None: --config/--outfile given; "cwd"/"sub": the v2 file is found by upward search, the v3 file goes to the default place
+    v2path = os.path.join(root, case.get("v2name", ".mockery.yml") if search else "v2.yml")
     if "yaml" in case:
         text = case["yaml"]
     else:
@@ -321,16 +385,33 @@ def eval_case(ctx, case):
     if v2 is None:
         return Verdict.inconclusive("generator produced YAML the reference reader rejects: %s" % err)
     h0 = hashlib.sha256(open(v2path, "rb").read()).hexdigest()
-    out = os.path.join(root, "out", "v3.yml")
-    os.makedirs(os.path.dirname(out))
+    cwd = root
+    if search:
+        cwd = root if search == "cwd" else os.path.join(root, "p1", "sub")
+        out = os.path.join(cwd, ".mockery_v3.yml")
+    else:
+        out = os.path.join(root, "out", "v3.yml")
+        os.makedirs(os.path.dirname(out))
+    out_rel = os.path.relpath(out, root)
     if case.get("stale_outfile"):
         # an earlier, longer migration result at the same --outfile path: nothing of it may survive
         with open(out, "w") as f:
             f.write("all: true\ndir: stale-dir\nstructname: StaleName\npackages:\n" + "".join("  example.com/stale/p%d:\n    config:\n      all: true\n" % k for k in range(200)))
     before = core.snapshot(root)
-    r = core.run_mockery(ctx, root, ["migrate", "--config", v2path, "--outfile", out], timeout=120)
+    margs = ["migrate"] if search else ["migrate", "--config", v2path, "--outfile", out]
+    r = core.run_mockery(ctx, cwd, margs, timeout=120)
     if r.timed_out:
         return Verdict.inconclusive("watchdog")
+    if search and case.get("twice") and r.exit == 0:
+        # the project is migrated again later (the v3 file of the first run is now lying next to / above the v2 file)
+        first = open(out, "rb").read() if os.path.exists(out) else None
+        r = core.run_mockery(ctx, cwd, margs, timeout=120)
+        if r.timed_out:
+            return Verdict.inconclusive("watchdog")
+        if r.exit != 0:
+            return Verdict.violated("a second `mockery migrate` of the same decodable v2 file failed (exit %s)" % r.exit, dict(r.brief(), first_exit=0), ["search=" + search, "twice"])
+        if first is not None and open(out, "rb").read() != first:
+            return Verdict.violated("a second `mockery migrate` of the same v2 file wrote a different v3 file", {"exit": r.exit}, ["search=" + search, "twice"])
     obs = {"exit": r.exit}
     tags = []
     levels = set()
@@ -347,13 +428,13 @@ def eval_case(ctx, case):
                     levels.add("iface")
                 if ic.get("configs"):
                     levels.add("configs")
-    tags = ["level=" + l for l in sorted(levels)]
+    tags = ["level=" + l for l in sorted(levels)] + (["search=" + search] + (["twice"] if case.get("twice") else []) if search else [])
     if r.panicked:
         return Verdict.violated("migrate crashed with a Go panic", dict(obs, **r.brief()), tags)
     if hashlib.sha256(open(v2path, "rb").read()).hexdigest() != h0:
         return Verdict.violated("the v2 input file was modified", obs, tags)
     after = core.snapshot(root)
-    touched = [k for k in core.snap_diff(before, after) if k not in ("out/v3.yml",)]
+    touched = [k for k in core.snap_diff(before, after) if k not in (out_rel,)]
     if touched:
         return Verdict.violated("migrate touched paths other than --outfile: %s" % touched, obs, tags)
     if r.exit != 0:
